@@ -428,18 +428,31 @@ def main_check(pid, tier, seed, replay=None):
     if replay:
         body = json.load(open(replay))
         cases = [body["case"]] if body.get("case") is not None else []
+        n_corpus = 0
     else:
         cases = list(mod.corpus())
+        n_corpus = len(cases)
         cases += list(mod.generate(ctx.rng, tier))
     ctx.log(f"{len(cases)} cases")
 
     recs = []
     fatal = None
     if ok_build:
-        B = 400
+        # the corpus (regression cases) is its own first batch; then batches of mod.BATCH cases.  Once a batch holds a
+        # concrete violation (checker false on an implementation output, not a known finding) the remaining batches
+        # are not evaluated: the verdict is already decided, and a changed implementation can make every further case
+        # much slower (larger oracle trees, ...).  Generators therefore put their cheapest discriminating cases first.
+        B = int(getattr(mod, "BATCH", 400))
+        cuts = ([0] if n_corpus == 0 else [0, n_corpus])
+        while cuts[-1] < len(cases):
+            cuts.append(min(len(cases), cuts[-1] + B))
         try:
-            for i in range(0, len(cases), B):
-                recs += evaluate_cases(mod, cases[i:i + B], ctx)
+            for a, b in zip(cuts, cuts[1:]):
+                part = evaluate_cases(mod, cases[a:b], ctx)
+                recs += part
+                if b < len(cases) and any(r["check_fail"] and not matches_known(pid, r, known) for r in part):
+                    ctx.log(f"concrete violation among cases {a}..{b - 1}: the remaining {len(cases) - b} cases are not evaluated")
+                    break
         except Exception as e:  # noqa: BLE001
             fatal = f"harness failure: {e!r}\n{traceback.format_exc()}"
             ctx.log(fatal)
